@@ -501,6 +501,16 @@ def check_nm_shrink(ctx: Ctx):
         dv = [x.value for x in own_nodes(nm.node) if isinstance(x, ast.Assign) and ast.unparse(x.targets[0]) == f"{v}_val"]
         ok = ok and len(dv) >= 1 and all(ast.unparse(d) == f"evaluate({v})" for d in dv)
         ctx.ob("C19-O1", "R5 PAIRING", nm, f"replacement `{ast.unparse(r)}` stores the point with the value evaluated for that point", ok, "", node=r)
+    # where one of two evaluated candidates is kept, the test compares their two values with each other
+    for n in own_nodes(nm.node):
+        if isinstance(n, ast.If) and n.orelse and len(n.body) >= 1 and len(n.orelse) >= 1:
+            tb = [x for x in n.body if isinstance(x, ast.Assign) and ast.unparse(x.targets[0]) == "simplex[n]"]
+            eb = [x for x in n.orelse if isinstance(x, ast.Assign) and ast.unparse(x.targets[0]) == "simplex[n]"]
+            if len(tb) == 1 and len(eb) == 1:
+                a_, b_ = ast.unparse(tb[0].value), ast.unparse(eb[0].value)
+                t_ = ast.unparse(n.test)
+                ok = t_ in (f"{a_}_val < {b_}_val", f"{a_}_val <= {b_}_val", f"{b_}_val > {a_}_val", f"{b_}_val >= {a_}_val")
+                ctx.ob("C19-O3", "R6 INCUMBENT", nm, f"choice between the evaluated candidates `{a_}` and `{b_}` keeps the better one", ok, f"test `{t_}`: comparing with anything else can discard the better of the two evaluated points", node=n)
     ctx.note("nelder_mead: a stop requested by the progress callback returns simplex[0] of a simplex that was not re-sorted after this iteration's replacement (pair consistent, but possibly not the best vertex); progress callbacks are not in the property's quantifier - information only")
 
 
@@ -656,7 +666,14 @@ def _t_rename_lns(tree):
     M.rename_local(g, "candidate_obj", "cand_obj")
 
 
+def _v_nm_greedy_expansion(tree):
+    g = M.find_func(tree, "nelder_mead")
+    M.replace_expr(g, lambda e: M.src_is(e, "expanded_val < reflected_val"), M.expr("expanded_val < best_val"))
+
+
 VARIANTS = [
+    M.Variant("nelder_mead keeps the expansion whenever it beats the best vertex (seed C19-A)", NM, _v_nm_greedy_expansion, "C19-O3"),
+
     M.Variant("lns best update nested under the acceptance callable (original defect)", LN, _v_lns_under_accept, "C19-O3"),
     M.Variant("anneal updates the best solution without its objective", AN, _v_anneal_stale_obj, "C19-O1"),
     M.Variant("anneal overwrites the best with any accepted move", AN, _v_anneal_best_worse, "C19-O3"),
